@@ -74,8 +74,8 @@ def cases(tier, seed):
             for n_out in (1, 2):
                 for rows in (1, 2, 4):
                     for oslice in (("all", "one") if n_out == 2 else ("all",)):
-                        for w in (("scalar", "vector") if n_out == 2 and oslice == "all" else ("scalar",)):
-                            for obs_param in (False, True) + (("two",) if rows > 1 and w == "scalar" else ()):
+                        for w in (("scalar", "vector", "scalar0d") if n_out == 2 and oslice == "all" else ("scalar",)):
+                            for obs_param in ((False,) if w == "scalar0d" else (False, True) + (("two",) if rows > 1 and w == "scalar" else ())):
                                 # "two": two observed parameter columns at once (row i of each goes with row i of the observation)
                                 out.append(dict(type="obs", kind=kind, d=d, n_out=n_out, rows=rows, oslice=oslice, weight=w, obs_param=obs_param))
                             if rows > 1 and oslice == "all" and w == "scalar":
@@ -85,6 +85,11 @@ def cases(tier, seed):
                                 if kind == "nonstatio":
                                     # observed column only: the initial-condition term of the same evaluation keeps the caller's value
                                     out.append(dict(type="obs", kind=kind, d=d, n_out=n_out, rows=rows, oslice=oslice, weight=w, obs_param=True, ic_too=True))
+    # a hyper-network whose input is made of two equation parameters (declared, and inserted, in non-alphabetical order):
+    # the terms measure the mismatch of the very network the user evaluates
+    for kind in ("ode", "statio", "nonstatio"):
+        for hp in (["nu", "D"], ["D", "nu"]):
+            out.append(dict(type="hyper", kind=kind, d=0 if kind == "ode" else 1, n_out=1, rows=3, hp=hp))
     out.sort(key=lambda c: (c["type"], c["d"], c.get("rows", 0)))
     return out
 
@@ -93,7 +98,48 @@ def close(a, b):
     return abs(a - b) <= 1e-10 * (1 + abs(b))
 
 
+def run_hyper(case):
+    import equinox as eqx
+    kind, d, rows = case["kind"], case["d"], case["rows"]
+    nv = L.nvar_of(kind, d)
+    eqp = {"nu": jnp.asarray(0.7), "D": jnp.asarray([0.2, -1.3])}  # non-alphabetical insertion
+    u = jinns.utils.create_HYPERPINN(jax.random.PRNGKey(11), ((eqx.nn.Linear, nv, 3), (jnp.tanh,), (eqx.nn.Linear, 3, 1)), L.EQ_TYPE[kind], case["hp"], 3, d,
+                                     eqx_list_hyper=((eqx.nn.Linear, 3, 4), (jnp.tanh,), (eqx.nn.Linear, 4, 1000)))
+    params = jinns.parameters.Params(nn_params=jax.tree_util.tree_map(lambda x: x * 1.1 + 0.01, u.init_params()), eq_params=eqp)
+    pin = L.points(rows, nv, salt=8)
+    val = np.linspace(-0.3, 0.9, rows).reshape(rows, 1)
+    obs = {"pinn_in": jnp.asarray(pin), "val": jnp.asarray(val), "eq_params": {}}
+    site = f"observations/{kind}/hyper_network"
+    if kind == "ode":
+        loss = L.quiet(jinns.loss.LossODE, u=u, dynamic_loss=None, initial_condition=(0.3, jnp.asarray([0.2])), params=params)
+        call = lambda z: u(z[:1], params)
+    elif kind == "statio":
+        loss = L.quiet(jinns.loss.LossPDEStatio, u=u, dynamic_loss=None, params=params)
+        call = lambda z: u(z, params)
+    else:
+        loss = L.quiet(jinns.loss.LossPDENonStatio, u=u, dynamic_loss=None, initial_condition_fun=lambda x: jnp.sin(x), params=params)
+        call = lambda z: u(z[:1], z[1:], params)
+    batch = L.make_batch(kind, L.points(rows, nv), obs=obs)
+    # reference: the wrapper called directly by the user (its own conventions are decided by C10)
+    U = np.stack([np.asarray(call(jnp.asarray(z))) for z in pin])
+    exp = {"observations": float(np.mean(np.sum((U - val) ** 2, axis=-1)))}
+    if kind == "ode":
+        exp["initial_condition"] = float(np.sum((np.asarray(u(jnp.asarray([0.3]), params)) - 0.2) ** 2))
+    elif kind == "nonstatio":
+        X = np.asarray(batch.times_x_inside_batch)[:, 1:]
+        U0 = np.stack([np.asarray(u(jnp.zeros((1,)), jnp.asarray(x), params)) for x in X])
+        exp["initial_condition"] = float(np.mean(np.sum((np.sin(X) - U0) ** 2, axis=-1)))
+    v = []
+    for mode, terms in (("jit", L.jit_eval(loss, params, batch)[1]), ("eager", loss.evaluate(params, batch)[1])):
+        for k, e in exp.items():
+            if not close(float(terms[k]), e):
+                v.append(V(site, "term_is_not_the_mismatch_of_the_network_the_user_evaluates", f"{case} {mode}: {k} = {float(terms[k])} expected {e}"))
+    return dict(viol=v, evals=2, nontrivial=[str(case)], outcomes=[f"hyper|{kind}|{case['hp']}|{round(sum(exp.values()), 6)}"], sample={"case": case, "expected": exp})
+
+
 def run_case(case):
+    if case["type"] == "hyper":
+        return run_hyper(case)
     kind, d, n_out = case["kind"], case["d"], case["n_out"]
     t = case["type"]
     site = {"ic": "initial_condition", "norm": "norm_loss", "obs": "observations"}[t] + f"/{kind}"
@@ -195,13 +241,13 @@ def run_case(case):
         sel = sel if case["oslice"] == "all" else sel[SL[case["oslice"]]]
         ncol = len(sel)
         val = np.linspace(-0.3, 0.9, rows * ncol).reshape(rows, ncol)
-        wv = 0.5 if case["weight"] == "scalar" else np.array([1.0, 0.3])
+        wv = 0.5 if case["weight"] in ("scalar", "scalar0d") else np.array([1.0, 0.3])
         kcol = np.array([0.6 + 0.35 * i for i in range(rows)])
         acol = np.array([0.7 + (1.1 - 0.5 * i if obs_param == "two" else 0.0) for i in range(rows)])
         obs = {"pinn_in": jnp.asarray(pin), "val": jnp.asarray(val), "eq_params": ({"k": jnp.asarray(kcol[:, None])} if obs_param else {})}
         if obs_param == "two":
             obs["eq_params"]["a"] = jnp.asarray(acol[:, None])
-        wj = jnp.asarray(wv) if case["weight"] == "vector" else wv
+        wj = jnp.asarray(wv) if case["weight"] in ("vector", "scalar0d") else wv
         if kind == "ode":
             loss = L.quiet(jinns.loss.LossODE, u=u, dynamic_loss=None, initial_condition=None, obs_slice=osl, loss_weights=jinns.loss.LossWeightsODE(observations=wj), params=params)
         elif kind == "statio":
